@@ -511,6 +511,28 @@ theorem sessOp_updnoc_genInv (cfg : Cfg) (n : Node) (sid s node ser : Nat) (mode
             have := genInv_setFabric n f { f with node := node, ser := ser } rfl rfl (by rw [hidx]; exact hg) h
             exact genInv_same rfl rfl rfl rfl this
 
+theorem genInv_removeFabricKey (n : Node) (idx : Nat) (h : GenInv n) : GenInv (removeFabricKey n idx).1 := by
+  have ⟨hfr, _, _, hst⟩ := removeFabricKey_spec n idx
+  refine ⟨noDangling_sub (n := n) (fun i g hg => by rw [fabGen_congr hfr.fabrics]; exact hg) ?_ ?_ h.1, ?_⟩
+  · intro s' hs' he _; rw [hfr.sessions] at hs'; exact ⟨s', hs', he, rfl, rfl⟩
+  · intro r' hr'; rw [hfr.resum] at hr'; exact ⟨r', hr', rfl, rfl⟩
+  · intro i f' hk
+    have hk' : kvF n.kv i = some f' := by
+      rcases hst with ⟨_, hkF, _⟩ | ⟨_, hkv, _⟩
+      · rw [hkF] at hk
+        by_cases hi : i = idx
+        · rw [if_pos hi] at hk; cases hk
+        · rw [if_neg hi] at hk; exact hk
+      · rw [hkv] at hk; exact hk
+    obtain ⟨f, hf, hg⟩ := h.2 i f' hk'
+    exact ⟨f, by simpa [getFabric, hfr.fabrics] using hf, hg⟩
+
+theorem undoAdded_genInv (n : Node) (idx : Nat) (h : GenInv n) : GenInv (undoAdded n idx) := by
+  unfold undoAdded
+  split
+  · exact genInv_removeFabricKey n idx h
+  · exact h
+
 theorem sessOp_complete_genInv (cfg : Cfg) (n : Node) (sid s : Nat) (mode : Mode) (h : GenInv n) :
     GenInv (sessOp cfg n sid mode (.complete s)).1 := by
   simp only [sessOp]
@@ -536,7 +558,7 @@ theorem sessOp_complete_genInv (cfg : Cfg) (n : Node) (sid s : Nat) (mode : Mode
           rw [hsn] at h3
           simp only at h3
           cases b4 with
-          | false => exact genInv_same rfl rfl rfl rfl h3
+          | false => exact undoAdded_genInv _ f.idx (genInv_same rfl rfl rfl rfl h3)
           | true =>
             simp only [ok]
             refine ⟨noDangling_sub (n := n4) (fun i g hg' => hg') ?_ (fun r' hr' => ⟨r', hr', rfl, rfl⟩) h3.1, h3.2⟩
